@@ -717,37 +717,43 @@ def session(root, data, env, trace=None, alloc_floor=None, pieces=None, rlimit_a
         timeout = max(timeout, 120)
     if rlimit_as_kib:
         argv = ["bash", "-c", "ulimit -c 0; ulimit -v %d; exec \"$0\" \"$@\"" % rlimit_as_kib] + argv
-    p = subprocess.Popen(argv, env=e, stdin=subprocess.PIPE, stdout=subprocess.PIPE, stderr=subprocess.PIPE, start_new_session=True)
     t0 = time.time()
     timed_out = False
-    try:
-        if pieces:
-            # write the pieces with small pauses so that reads see them separately, then close
-            import threading
+    if pieces:
+        # our own pipe for stdin: a feeder thread writes the pieces with small pauses and closes it,
+        # while communicate() waits for the output under the watchdog
+        import threading
+        rfd, wfd = os.pipe()
+        p = subprocess.Popen(argv, env=e, stdin=rfd, stdout=subprocess.PIPE, stderr=subprocess.PIPE, start_new_session=True)
+        os.close(rfd)
 
-            def feeder():
+        def feeder():
+            try:
+                for pc in pieces:
+                    os.write(wfd, pc)
+                    time.sleep(0.002)
+            except OSError:
+                pass
+            finally:
                 try:
-                    for pc in pieces:
-                        p.stdin.write(pc)
-                        p.stdin.flush()
-                        time.sleep(0.002)
-                    p.stdin.close()
-                except (BrokenPipeError, OSError, ValueError):
+                    os.close(wfd)
+                except OSError:
                     pass
 
-            th = threading.Thread(target=feeder, daemon=True)
-            th.start()
-            out = p.stdout.read()
-            err = p.stderr.read()
-            try:
-                p.wait(timeout=timeout)
-            except subprocess.TimeoutExpired:
-                timed_out = True
-        else:
+        th = threading.Thread(target=feeder, daemon=True)
+        th.start()
+        try:
+            out, err = p.communicate(timeout=timeout)
+        except subprocess.TimeoutExpired:
+            timed_out = True
+            out, err = b"", b""
+    else:
+        p = subprocess.Popen(argv, env=e, stdin=subprocess.PIPE, stdout=subprocess.PIPE, stderr=subprocess.PIPE, start_new_session=True)
+        try:
             out, err = p.communicate(data, timeout=timeout)
-    except subprocess.TimeoutExpired:
-        timed_out = True
-        out, err = b"", b""
+        except subprocess.TimeoutExpired:
+            timed_out = True
+            out, err = b"", b""
     if timed_out:
         try:
             os.killpg(p.pid, 9)
@@ -1254,11 +1260,19 @@ def _c12_worker(args):
             cuts = sorted({rng.range(1, len(data) - 1) for _ in range(npieces - 1)})
             pieces = [data[a:b] for a, b in zip([0] + cuts, cuts + [len(data)])]
         vg = mode == "valgrind"
-        r = session(root, data, base_env(home), trace=None if vg else trace, alloc_floor=None if vg else 512 * 1024, pieces=pieces, rlimit_as_kib=1024 * 1024, timeout=40, valgrind=vg)
+        r = session(root, data, base_env(home), trace=None if vg else trace, alloc_floor=None if vg else 512 * 1024, pieces=pieces, rlimit_as_kib=1024 * 1024, timeout=15, valgrind=vg)
         if vg and r["code"] == 97:
             viol("C12|serve|valgrind-memcheck-error|" + inp["cls"], {"class": inp["cls"], "index": idx, "stderr": r["err"][-600:]})
         label = {"class": inp["cls"], "index": idx, "mode": mode, "len": len(data), "head": data[:48].hex(), "pieces": npieces}
         v = c12_verdicts(r, trace, root, inp, viol, cnt, label)
+        if sum(1 for sg, _ in found if "keeps-reading-closed-stdin" in sg) and r["timed_out"]:
+            spins = cn.get("spinning_sessions", 0) + 1
+            cn["spinning_sessions"] = spins
+            if spins >= 3:
+                # the verdict is settled; every further spinning session would cost a full watchdog period
+                for sig, det in found:
+                    res["viol"].append((sig, det))
+                break
         if v == "inconclusive":
             res["inconclusive"] += 1
             continue
